@@ -7,7 +7,7 @@ import argparse, json, os, shutil, subprocess, sys, tempfile, concurrent.futures
 
 HERE = os.path.dirname(os.path.dirname(os.path.abspath(__file__)))
 REPO = os.environ.get("VERIF_REPO", "/repo")
-ENV = dict(os.environ, GOFLAGS="-mod=mod", GOPROXY="off")
+ENV = dict(os.environ, GOFLAGS="-mod=mod -trimpath", GOPROXY="off")
 for k in ("GOWORK", "GOSUMDB", "GOTOOLCHAIN"):
     ENV.pop(k, None)
 
